@@ -27,6 +27,9 @@ def main():
         if prop == "C04":
             import c04
             return c04.run(args)
+        if prop == "C08":
+            import c08
+            return c08.run(args)
         if prop == "C02":
             import c02
             return c02.run(args)
